@@ -9,9 +9,12 @@ mkdir -p .work/bin evidence replay
 ./.work/bin/extract -repo "${VERIF_REPO:-/repo}" -out lean/GripGen -facts .work/facts.json || true
 # Lean: models, generated tables, proofs, driver
 python3 tools/gen_main.py
-(cd lean && lake build && lake build gripdriver)
+# a proof that does not build is reported by the property's own check (broken obligation), not here:
+# setup only warms the build, every check rebuilds what it needs from /repo's working tree
+(cd lean && lake build) || echo "setup: WARNING lake build reported failures (the affected checks will report them)"
+(cd lean && lake build gripdriver) || echo "setup: WARNING gripdriver did not build (checks fall back to per-property drivers)"
 # Go harness against /repo (also warms the Go build cache)
 cp "${VERIF_REPO:-/repo}/go.sum" go/harness/go.sum
 sed "s#@REPO@#${VERIF_REPO:-/repo}#" go/harness/go.mod.in > go/harness/go.mod
-(cd go/harness && go build -tags verif -o ../../.work/bin/hx ./cmd/hx)
+(cd go/harness && go build -tags verif -o ../../.work/bin/hx ./cmd/hx) || echo "setup: WARNING harness did not build against the repository tree"
 echo setup ok
